@@ -130,8 +130,7 @@ Definition gout_in (allowed : list res) (g : gout) : bool :=
   end.
 Definition prblock_ok (b : lblock) : bool :=
   forallb2 (fun q g => match q with (e1, e2, z) =>
-              (known_probe_raw (l_plat b) (l_meth b) (l_site b) e1 e2 z
-               || gout_in (probe_allowed (l_plat b) (l_meth b) (l_site b) e1 e2 z) g)
+              gout_in (probe_allowed (l_plat b) (l_meth b) (l_site b) e1 e2 z) g
               && gout_ok (Some (probe_outcome (l_plat b) (l_meth b) (l_site b) e1 e2 z)) g end)
            (probe_conds (l_plat b)) (l_outs b).
 Definition prblocks_complete (bs prs : list lblock) : bool :=
